@@ -212,9 +212,17 @@ def run(S, tier, rep):
     from ..report import Report as _R
     from .c10 import check_instance
     tmp2 = _R("C07", "other")
+    from .c10 import wrappers_forward_options as _wf
+    tmpw = _R("C07", "other")
+    _wf(S, tmpw, rule="C07.w")
+    broken_forwarding = any(not o["ok"] for o in tmpw.obligations)
     for dim_ in (2, 3):
         for reset_ in (True, False):
-            check_instance(S, dim_, reset_, tmp2)
+            try:
+                check_instance(S, dim_, reset_, tmp2)
+            except Unsupported:
+                if not broken_forwarding:
+                    raise        # (with a transposed constructor argument the abstract instance is meaningless: C07.w reports it)
     for o in tmp2.obligations:
         if o["rule"] in ("C10.e",) or (o["rule"] == "C10.f" and "view of the caller" in o["instance"]):
             o = dict(o, rule="C07.target")
